@@ -67,6 +67,11 @@ type Grammar struct {
 	Filler  string
 	LongMax int
 	Flat    bool
+
+	// emission style (Emission()): how the grammar is written down, not what it means.
+	// 1: block comments inside actions and predicates; 2: header comments and user imports
+	// (a package the runtime imports too, an aliased one, grouped), used by the actions.
+	Style int
 }
 
 var ruleNames = []string{"S", "A", "B", "D", "F", "G", "H", "J"}
@@ -386,9 +391,21 @@ func (g *Grammar) PegText(pkg string, noast bool) string {
 		return fmt.Sprintf("p.Tr = append(p.Tr, ref.Ev{K: %d, B: begin, E: end, Text: text})", k)
 	}
 	var b strings.Builder
-	fmt.Fprintf(&b, "package %s\n\nimport \"vhlib/ref\"\n\ntype T Peg {\n Tr []ref.Ev\n Sw [2]bool\n N int\n}\n\n", pkg)
+	switch g.Style {
+	case 2:
+		fmt.Fprintf(&b, "# generated by the verification family\n// second header comment\npackage %s\n\nimport \"vhlib/ref\"\nimport \"fmt\"\nimport (\n\tstr \"strings\"\n\t\"os\"\n)\n\ntype T Peg {\n Tr []ref.Ev\n Sw [2]bool\n N int\n}\n\n", pkg)
+	default:
+		fmt.Fprintf(&b, "package %s\n\nimport \"vhlib/ref\"\n\ntype T Peg {\n Tr []ref.Ev\n Sw [2]bool\n N int\n}\n\n", pkg)
+	}
 	for _, r := range g.G.Rules {
 		body := pegExpr(g.G, r.E, 0, act)
+		switch g.Style {
+		case 1:
+			body = strings.ReplaceAll(body, "{ p.Tr = ", "{ /* action */ p.Tr = ")
+			body = strings.ReplaceAll(body, "&{ p.Sw[", "&{ /* predicate */ p.Sw[")
+		case 2:
+			body = strings.ReplaceAll(body, "Text: text}) }", "Text: text}); if p.N < 0 { fmt.Fprint(os.Stderr, str.ToUpper(text)) } }")
+		}
 		fmt.Fprintf(&b, "%s <- %s\n", r.Name, body)
 	}
 	return b.String()
